@@ -190,8 +190,14 @@ func coqRegex(re *syntax.Regexp) (string, error) {
 		}
 		return out, nil
 	case syntax.OpConcat:
-		parts := make([]string, 0, len(re.Sub))
-		for _, sub := range re.Sub {
+		// normal form: capture groups dropped, nested concatenations inlined, adjacent literals merged,
+		// right-nested RCat — grouping does not change the language, so it must not change the model
+		flat := flattenConcat(re)
+		if len(flat) == 1 {
+			return coqRegex(flat[0])
+		}
+		parts := make([]string, 0, len(flat))
+		for _, sub := range flat {
 			s, err := coqRegex(sub)
 			if err != nil {
 				return "", err
@@ -219,6 +225,42 @@ func coqRegex(re *syntax.Regexp) (string, error) {
 		return out, nil
 	}
 	return "", fmt.Errorf("unsupported regexp operator %v", re.Op)
+}
+
+func stripCapture(re *syntax.Regexp) *syntax.Regexp {
+	for re.Op == syntax.OpCapture {
+		re = re.Sub[0]
+	}
+	return re
+}
+
+func flattenConcat(re *syntax.Regexp) []*syntax.Regexp {
+	var out []*syntax.Regexp
+	var walk func(r *syntax.Regexp)
+	walk = func(r *syntax.Regexp) {
+		r = stripCapture(r)
+		if r.Op == syntax.OpConcat {
+			for _, s := range r.Sub {
+				walk(s)
+			}
+			return
+		}
+		if r.Op == syntax.OpEmptyMatch {
+			return
+		}
+		if n := len(out); n > 0 && r.Op == syntax.OpLiteral && out[n-1].Op == syntax.OpLiteral && out[n-1].Flags == r.Flags {
+			merged := *out[n-1]
+			merged.Rune = append(append([]rune{}, out[n-1].Rune...), r.Rune...)
+			out[n-1] = &merged
+			return
+		}
+		out = append(out, r)
+	}
+	walk(re)
+	if len(out) == 0 {
+		return []*syntax.Regexp{{Op: syntax.OpEmptyMatch}}
+	}
+	return out
 }
 
 func coqPattern(pat string) (string, error) {
